@@ -104,9 +104,10 @@ def kind_term(j):
                     parts.append(("IStr", codes(it["String"])))
                 else:
                     ex = it["Expr"]
-                    if ex.get("format") is not None or "Ident" not in ex["expr"]:
-                        raise Unsupported("interpolation format / non-ident")
-                    parts.append(("IExpr", [codes(p) for p in ex["expr"]["Ident"]]))
+                    if "Ident" not in ex["expr"] or ex["expr"].get("alias") is not None:
+                        raise Unsupported("interpolation of a non-ident")
+                    fm = ex.get("format")
+                    parts.append(("IExpr", [codes(p) for p in ex["expr"]["Ident"]], ("Some", codes(fm)) if fm is not None else "None"))
             return ("EAtom", ("AInterp", sql, parts))
     if "Binary" in j:
         b = j["Binary"]
@@ -412,8 +413,11 @@ def run(ck, info, pr):
     psrc = []
     for key, e in G.triples():
         psrc.append(("corr-parser-triples", G.src(e)))
+    for a in G.ADJACENCY:
+        if "func" not in a:
+            psrc.append(("corr-parser-adjacency", a))     # incl. aliases in parentheses at every operand position
     for (stream, s, t, real, v), mt in zip(todo, texts):
-        if stream != "corr-fmt-triples" and "\n" not in real and len(psrc) < ck.n(1700, 9000):
+        if stream != "corr-fmt-triples" and "\n" not in real and len(psrc) < ck.n(1900, 9000):
             psrc.append(("corr-parser-fmt-output", real))
     for _ in range(ck.n(200, 3000)):
         e = G.gen_expr(rng, 3, {"clean": True, "lits": True, "rich": True, "nofunc_top": True})
@@ -617,7 +621,7 @@ def run_literals(ck, info):
     # the word lexer model (ASCII classes suffice: non-ASCII parts are printed in backticks) vs the real lexer,
     # on what the two printers emit, followed by a blank
     hdr = HEADER + "From PV Require Import Proofs.FmtLitProofs Proofs.FmtInstProofs.\n"
-    wv = coq_eval(hdr, ["(lex_word ascii_alpha_f ascii_alnum_f I_prql (display_ident_part I_prql %s ++ [32]), lex_word ascii_alpha_f ascii_alnum_f I_prql (write_ident_part I_prql %s ++ [32]), false, write_known I_prql %s)" % ((coq(codes(p)),) * 3) for p in parts])
+    wv = coq_eval(hdr, ["(lex_word ascii_alpha_f ascii_alnum_f I_prql (display_ident_part I_prql %s ++ [32]), lex_word ascii_alpha_f ascii_alnum_f I_prql (write_ident_part I_prql %s ++ [32]))" % ((coq(codes(p)),) * 2) for p in parts])
     texts = []
     for p, v in zip(parts, vi):
         texts.append("".join(chr(c) for c in v[0]) + " ")
@@ -652,10 +656,7 @@ def run_literals(ck, info):
                 ck.disagreement("word lexer model differs from the lexer on a printed identifier", {"part": p, "printer": which, "text": texts[2 * i + j], "model": str(v[j])[:200], "real": str(rl[2 * i + j])[:200]}, None)
                 continue
             back_ok = rw == ["WIdent", codes(p)]
-            known = v[2 + j]
-            ck.stat("corr-ident-lexer", "%s:%s%s" % (which, "ok" if back_ok else "lost", ":known-class" if known else ""))
+            ck.stat("corr-ident-lexer", "%s:%s" % (which, "ok" if back_ok else "lost"))
             if not back_ok:
-                cls = None
-                if known:
-                    cls = "C14-ident-star-bare"
-                ck.disagreement("a printed identifier does not lex back to itself", {"part": p, "printer": which, "text": texts[2 * i + j], "real": str(rl[2 * i + j])[:200]}, (lambda c, cls=cls: cls))
+                # fmt_expr_ident_roundtrip / fmt_ident_roundtrip hold for every name (the latter since commit 328740d)
+                ck.disagreement("a printed identifier does not lex back to itself", {"part": p, "printer": which, "text": texts[2 * i + j], "real": str(rl[2 * i + j])[:200]}, None)
